@@ -797,7 +797,8 @@ func c12nRun(o *opts, jobs []*c12nJob, stats map[string]int) error {
 		q := j.query()
 		j.caseLine = fmt.Sprintf("N %s things %s %s %s %s %s %s", j.stream, hxs(q), hxs(j.filter), j.pre,
 			strings.Join(j.atoms, ","), strings.Join(htexts, ","), strings.Join(bits, ","))
-		j.implLine = fmt.Sprintf("N %s %s", db.rowBits(q), strings.Join(hexIds, ","))
+		// third field: the rows the store's filtered id cursor (Store.IterateIds over the typed predicate) yields (c12w9.go)
+		j.implLine = fmt.Sprintf("N %s %s %s", db.rowBits(q), strings.Join(hexIds, ","), c12w9IterBits(db, q))
 	}
 	stats["n_atoms"] = len(atomBits)
 	stats["n_distinct_atom_valuations"] = len(distinct)
